@@ -1052,6 +1052,29 @@ fn corpus() -> Vec<(Config, Vec<Op>)> {
             Op::Read(Req::Opts { k: 1, range: None, im: Cond::None, inm: Cond::Tags(vec![]), md: Date::Rel(1, 1), um: Date::None, version: false, head: false }),
             Op::Read(Req::Opts { k: 3, range: None, im: Cond::Star, inm: Cond::None, md: Date::None, um: Date::None, version: false, head: false })]),
     ];
+    // creation by every path, each probed while the key does not exist yet and read right after
+    // (a NotFound remembered by the wrapper must not outlive the creation, whoever creates the object)
+    let mut ops = Vec::new();
+    for via in 0u8..7 {
+        let k = 1 + via as usize;
+        ops.push(g(k));
+        ops.push(Op::Read(plain(k)));
+        ops.push(putv(k, 40 + via as usize, 20 + via as u32, via));
+        ops.push(g(k));
+        ops.push(g(k));
+    }
+    v.push((ample.clone(), ops.clone()));
+    v.push((ample2.clone(), ops));
+    // a reader of the absent key is in flight while the object is created through the raw store
+    v.push((ample.clone(), vec![g(3), Op::Start(1, Req::Get(3)), putv(3, 10, 3, 0), Op::Go(1), g(3), Op::Start(2, Req::Get(4)), Op::Start(3, Req::Get(4)), putv(4, 11, 4, 5), Op::Go(3), Op::Go(2), g(4)]));
+    // several readers of one key with a RAM tier that keeps nothing (size 0) / is smaller than the object:
+    // whoever waits for another reader's load must still get the bytes
+    for (l1, dir) in [(0usize, false), (0, true), (64, false), (1, true)] {
+        v.push((Config { l1, l2: if dir { 1 << 20 } else { 0 }, dir }, vec![put(1, 300, 1), put(2, 100, 2),
+            Op::Start(1, Req::Get(1)), Op::Start(2, Req::Get(1)), Op::Start(3, Req::Get(1)), Op::Start(4, Req::Get(2)), Op::Read(Req::Get(1)),
+            Op::Go(1), Op::Go(3), Op::Go(2), Op::Go(4), g(1), g(2),
+            Op::Start(5, Req::Get(5)), Op::Start(6, Req::Get(5)), Op::Go(5), putv(5, 10, 5, 0), Op::Go(6), g(5)]));
+    }
     // tiny L1 over a disk tier: enough reads for moka to evict, then L2 hits with promotion; rejected re-PUT in between
     let mut ops = vec![put(1, 100, 1), put(2, 300, 2), put(3, 65, 3)];
     for j in 0..150 {
@@ -1074,6 +1097,57 @@ fn nontrivial(run: &Run) -> bool {
     run.put_ok > 0 && run.results.iter().zip(run.obs.iter()).any(|(r, o)| r.starts_with("ok") && *o != 'B')
 }
 
+// ------------------------------------------------------------- watchdogs ----
+static HEARTBEAT: std::sync::atomic::AtomicU64 = std::sync::atomic::AtomicU64::new(0);
+static CURRENT: std::sync::Mutex<String> = std::sync::Mutex::new(String::new());
+const CASE_TIMEOUT_S: u64 = 30;
+const SYNC_HANG_S: u64 = 90;
+
+fn now_s() -> u64 {
+    std::time::SystemTime::now().duration_since(std::time::UNIX_EPOCH).map(|d| d.as_secs()).unwrap_or(0)
+}
+
+/// Runs one case under a wall-clock limit (readers that wait for ever are dealt
+/// with inside run_case; this catches whatever else does not come back).
+fn run_guarded(rt: &tokio::runtime::Runtime, cfg: &Config, ops: &[Op]) -> Result<Run, String> {
+    HEARTBEAT.store(now_s(), std::sync::atomic::Ordering::Relaxed);
+    *CURRENT.lock().unwrap() = json!({"cfg": enc_cfg(cfg), "ops": encode(ops)}).to_string();
+    rt.block_on(async {
+        match tokio::time::timeout(std::time::Duration::from_secs(CASE_TIMEOUT_S), run_case(cfg, ops)).await {
+            Ok(r) => r,
+            Err(_) => Err(format!("the history did not complete within {} s", CASE_TIMEOUT_S)),
+        }
+    })
+}
+
+/// A thread outside the runtime: if a case blocks the runtime thread itself
+/// (no await ever returns), record it as a finding in the report file and exit.
+fn spawn_sync_hang_watchdog(out: String) {
+    std::thread::spawn(move || loop {
+        std::thread::sleep(std::time::Duration::from_secs(2));
+        let hb = HEARTBEAT.load(std::sync::atomic::Ordering::Relaxed);
+        if hb != 0 && now_s().saturating_sub(hb) > SYNC_HANG_S {
+            let case: serde_json::Value = serde_json::from_str(&CURRENT.lock().map(|c| c.clone()).unwrap_or_default()).unwrap_or(json!({}));
+            let mut rep: serde_json::Value = std::fs::read_to_string(&out)
+                .ok()
+                .and_then(|t| serde_json::from_str(&t).ok())
+                .unwrap_or(json!({"property": "C16", "evaluations": 0, "impl_runs": 0, "distinct_nontrivial": 0, "histogram": {}, "samples": [],
+                                  "disagreements": [], "oracle_violations": [], "notes": [], "exhaustive": false}));
+            let v = json!({"class": "", "what": format!("the implementation did not return from a history within {} s (runtime thread blocked): reads through the cache do not complete", SYNC_HANG_S), "case": case});
+            if let Some(a) = rep["oracle_violations"].as_array_mut() {
+                a.push(v);
+            }
+            if let Some(a) = rep["notes"].as_array_mut() {
+                a.push(json!("run aborted by the synchronous-hang watchdog"));
+            }
+            if !out.is_empty() {
+                let _ = std::fs::write(&out, serde_json::to_string_pretty(&rep).unwrap_or_default());
+            }
+            std::process::exit(0);
+        }
+    });
+}
+
 fn main() {
     let args = Args::parse();
     if std::env::var("CSV_LOUD").is_err() {
@@ -1089,7 +1163,13 @@ fn main() {
         let v = if v.get("cfg").is_some() { v.clone() } else { v["case"].clone() };
         let cfg = dec_cfg(v["cfg"].as_str().unwrap_or("1048576,0,0"));
         let ops = decode(v["ops"].as_str().unwrap_or(""));
-        let run = rt.block_on(run_case(&cfg, &ops)).expect("run");
+        let run = match run_guarded(&rt, &cfg, &ops) {
+            Ok(r) => r,
+            Err(e) => {
+                println!("cfg  : {}\nops  : {}\nFAILED: {}", enc_cfg(&cfg), encode(&ops), e);
+                std::process::exit(1);
+            }
+        };
         let model_out = model.ask(&run.model_line);
         println!("cfg  : {}\nops  : {}\nline : {}\nimpl : {}\nmodel: {}\noracle failures: {:?}", enc_cfg(&cfg), encode(&ops), run.model_line, run.impl_out, model_out, run.bad);
         std::process::exit(if run.bad.is_empty() && (model.is_null() || run.impl_out == model_out) { 0 } else { 1 });
@@ -1116,17 +1196,28 @@ fn main() {
         cases.push(("random".to_string(), c, o));
     }
 
+    const MAX_FINDINGS: usize = 10;
+    const SHRINK_S: u64 = 40;
+    let t_start = std::time::Instant::now();
+    let budget_s: u64 = if args.thorough() { 1000 } else { 360 };
+    spawn_sync_hang_watchdog(args.out.clone());
     let mut failed_cases = 0usize;
     let mut shrunk_disagreements = 0usize;
     let mut shrunk_violations = 0usize;
     for (origin, cfg, ops) in cases {
         let ops = normalize(&ops);
         let text = format!("{}|{}", enc_cfg(&cfg), encode(&ops));
-        let run = match rt.block_on(run_case(&cfg, &ops)) {
+        let run = match run_guarded(&rt, &cfg, &ops) {
             Ok(r) => r,
             Err(e) => {
                 report.notes.push(format!("case could not run: {}", e));
-                report.oracle_violation("", &format!("harness could not run a case: {}", e), json!({"cfg": enc_cfg(&cfg), "ops": encode(&ops)}));
+                report.oracle_violation("", &format!("reads through the cache did not complete / the history could not be run: {}", e), json!({"cfg": enc_cfg(&cfg), "ops": encode(&ops)}));
+                failed_cases += 1;
+                report.write(&args.out);
+                if failed_cases >= MAX_FINDINGS {
+                    report.notes.push(format!("stopped after {} failing cases ({} cases run)", failed_cases, report.impl_runs));
+                    break;
+                }
                 continue;
             }
         };
@@ -1157,12 +1248,13 @@ fn main() {
             let shrunk = if shrunk_disagreements < 3 {
                 shrunk_disagreements += 1;
                 let mut budget = 150;
+                let t_shrink = std::time::Instant::now();
                 ddmin(&ops, &mut |cand: &[Op]| {
-                    if budget == 0 {
+                    if budget == 0 || t_shrink.elapsed().as_secs() > SHRINK_S {
                         return false;
                     }
                     budget -= 1;
-                    match rt.block_on(run_case(&cfg, cand)) {
+                    match run_guarded(&rt, &cfg, cand) {
                         Ok(r) => model.differs(&r.model_line, &r.impl_out).0,
                         Err(_) => false,
                     }
@@ -1170,7 +1262,7 @@ fn main() {
             } else {
                 ops.clone()
             };
-            let sr = rt.block_on(run_case(&cfg, &shrunk)).ok();
+            let sr = run_guarded(&rt, &cfg, &shrunk).ok();
             let (sl, si, sbad) = sr.map(|r| (r.model_line, r.impl_out, r.bad)).unwrap_or_default();
             let sm = model.ask(&sl);
             report.disagreement(json!({
@@ -1184,12 +1276,13 @@ fn main() {
             let shrunk = if shrunk_violations < 3 {
                 shrunk_violations += 1;
                 let mut budget = 150;
+                let t_shrink = std::time::Instant::now();
                 ddmin(&ops, &mut |cand: &[Op]| {
-                    if budget == 0 {
+                    if budget == 0 || t_shrink.elapsed().as_secs() > SHRINK_S {
                         return false;
                     }
                     budget -= 1;
-                    match rt.block_on(run_case(&cfg, cand)) {
+                    match run_guarded(&rt, &cfg, cand) {
                         Ok(r) => !r.bad.is_empty(),
                         Err(_) => false,
                     }
@@ -1197,12 +1290,19 @@ fn main() {
             } else {
                 ops.clone()
             };
-            let sbad = rt.block_on(run_case(&cfg, &shrunk)).map(|r| r.bad).unwrap_or_default();
+            let sbad = run_guarded(&rt, &cfg, &shrunk).map(|r| r.bad).unwrap_or_default();
             let (what, shrunk) = if sbad.is_empty() { (run.bad.join("; "), ops.clone()) } else { (sbad.join("; "), shrunk) };
             report.oracle_violation("", &what, json!({"cfg": enc_cfg(&cfg), "ops": encode(&shrunk), "original": encode(&ops)}));
         }
-        if failed_cases >= 12 {
+        if differs || !run.bad.is_empty() || (report.impl_runs % 100 == 0 && !args.out.is_empty()) {
+            report.write(&args.out); // incremental: a later hang still leaves the findings so far
+        }
+        if failed_cases >= MAX_FINDINGS {
             report.notes.push(format!("stopped after {} failing cases ({} cases run)", failed_cases, report.impl_runs));
+            break;
+        }
+        if t_start.elapsed().as_secs() > budget_s {
+            report.notes.push(format!("time budget of {} s used up after {} cases", budget_s, report.impl_runs));
             break;
         }
     }
